@@ -24,7 +24,16 @@ def run(tier, seed, vh, only_paths=None, mode=None):
         rc2, out2 = run_tlc("RosmarHLC.tla", os.path.join(SPEC, "MC_HLC_witness.cfg"), os.path.join(run, "meta_mc2"), workers=16, timeout=600)
         if "AboveBeforeRestart is violated" not in out2:
             raise Inconclusive("vacuity control: SeedOnOpen=FALSE no longer violates AboveBeforeRestart")
-        res["mc"] = {"cfg": "MC_HLC", "states": d, "transitions": g, "witness_SeedOnOpen_FALSE_violates": True}
+        # unbounded integers: Apalache discharges that HLCInductive!IndInv is an inductive invariant
+        apa = {}
+        for nm, args in (("base", ["--init=Init", "--inv=IndInv", "--length=0"]), ("step", ["--init=IndInit", "--inv=IndInv", "--length=1"])):
+            rc3, out3 = sh(["apalache-mc", "check"] + args + ["--out-dir=" + os.path.join(run, "apalache_" + nm), "HLCInductive.tla"],
+                           timeout=300, cwd=os.path.join(SPEC, "apalache"))
+            apa[nm] = "EXITCODE: OK" in out3 and "NoError" in out3.replace("no error", "NoError")
+            if not apa[nm]:
+                raise Inconclusive("Apalache did not discharge the %s case of the HLC inductive invariant:\n%s" % (nm, out3[-800:]))
+        res["mc"] = {"cfg": "MC_HLC", "states": d, "transitions": g, "witness_SeedOnOpen_FALSE_violates": True,
+                     "apalache_inductive_invariant": apa}
         n, procs = (40, 4) if tier == "quick" else (400, 8)
         scripts, seen = [], set()
 
